@@ -183,7 +183,8 @@ def plan_for(pid, tier, seed):
     if pid in ARENA_PROPS:
         from . import replay
         gens = {"C01": ["ArenaGen_realloc5"], "C02": ["ArenaGen_realloc5"], "C12": ["ArenaGen_realloc5"], "C04": ["ArenaGen_quick3"],
-                "C03": ["ArenaGen_quick3"], "C06": ["ArenaGen_quick3"], "C08": ["ArenaGen_quick3"]}.get(pid, [])
+                "C03": ["ArenaGen_quick3"], "C06": ["ArenaGen_quick3"], "C08": ["ArenaGen_quick3"],
+                "C11": ["ArenaGen_trywith"], "C10": ["ArenaGen_trywith"]}.get(pid, [])
         if tier == "thorough" and pid in ("C01", "C04", "C12"):
             gens = gens + ["ArenaGen_quick"]
         traces = arena_corpus(tier, seed, ARENA_GENS[pid])
